@@ -93,6 +93,35 @@ def congruent(a, b, m):
     return (a - b) % m == 0
 
 
+def be(n, w):
+    """big-endian base-256 digits of 0 <= n < 256**w (definition: sum(b[i] * 256**(w-1-i)) == n, 0 <= b[i] < 256)"""
+    return int(n).to_bytes(w, "big")
+
+
+def canonical_ipv4(s):
+    import socket
+    try:
+        return socket.inet_ntoa(socket.inet_aton(s)) == s
+    except (OSError, TypeError):
+        return False
+
+
+def canonical_ipv6(s):
+    import socket
+    try:
+        return socket.inet_ntop(socket.AF_INET6, socket.inet_pton(socket.AF_INET6, s)) == s
+    except (OSError, TypeError, ValueError):
+        return False
+
+
+def valid_utf8(b):
+    try:
+        b.decode()
+        return True
+    except UnicodeDecodeError:
+        return False
+
+
 # -- registry --------------------------------------------------------------------------------------------------------
 
 CONTRACTS: list = []
